@@ -816,6 +816,14 @@ func (fc *FnCtx) findLoops() {
 	for i, l := range fc.loops {
 		l.ordinal = i + 1
 	}
+	// an invariant written for a loop that does not exist would be silently unchecked: refuse it
+	if fc.con != nil {
+		for n := range fc.con.LoopInv {
+			if n < 1 || n > len(fc.loops) {
+				fc.err = fmt.Errorf("%s: contract has an invariant for loop %d, the function has %d loop(s)", fc.name, n, len(fc.loops))
+			}
+		}
+	}
 }
 
 func loopPos(l *loopInfo) token.Pos {
